@@ -517,7 +517,7 @@ func resolveRoles(w *World) *Roles {
 	for _, fn := range funcs {
 		if fn.Signature.Recv() != nil && fn.Signature.Params().Len() == 1 && fn.Signature.Results().Len() == 1 && fn.Signature.Results().At(0).Type().String() == "bool" &&
 			fn.Signature.Params().At(0).Type().String() == "string" && ro.RunPred != nil &&
-			len(findCalls(fn, func(_ string, c *ssa.CallCommon) bool { return c.StaticCallee() == ro.RunPred })) > 0 {
+			(len(findCalls(fn, func(_ string, c *ssa.CallCommon) bool { return c.StaticCallee() == ro.RunPred })) > 0 || ro.existsDelegate(fn) != nil) {
 			ro.PipeRunning = fn
 		}
 	}
@@ -645,4 +645,57 @@ func (ro *Roles) liftSingleCaller(fns []*ssa.Function) []*ssa.Function {
 		}
 	}
 	return out
+}
+
+// existsDelegate: fn returns the result of one call of a module function over a job list (a method
+// of a named list type, or a plain function taking the slice) that calls the running predicate.
+func (ro *Roles) existsDelegate(fn *ssa.Function) *ssa.Call {
+	if ro.RunPred == nil {
+		return nil
+	}
+	var found *ssa.Call
+	n := 0
+	allInstrs(fn, func(in ssa.Instruction) {
+		rt, ok := in.(*ssa.Return)
+		if !ok || len(rt.Results) != 1 || (fn.Recover != nil && rt.Block() == fn.Recover) {
+			return
+		}
+		n++
+		if c, ok := ro.w.Resolve(rt.Results[0]).(*ssa.Call); ok {
+			g := c.Call.StaticCallee()
+			if g != nil && g.Blocks != nil && g.Package() == ro.Root && len(findCalls(g, func(_ string, cc *ssa.CallCommon) bool { return cc.StaticCallee() == ro.RunPred })) > 0 {
+				found = c
+			}
+		}
+	})
+	if n != 1 {
+		return nil
+	}
+	return found
+}
+
+// existsHost: the function that holds the ∃-loop of the pipeline-running predicate and the access
+// path of the pipeline's job list inside it ("" when a delegate is not called with that list).
+func (ro *Roles) existsHost() (*ssa.Function, string) {
+	fn := ro.PipeRunning
+	c := ro.existsDelegate(fn)
+	if c == nil {
+		return fn, "recv.jobsByPipeline[arg0]"
+	}
+	g := c.Call.StaticCallee()
+	for i, p := range g.Params {
+		if sh := shapeString(p.Type()); strings.HasPrefix(sh, "[]") && strings.HasSuffix(sh, "PipelineJob") {
+			if i >= len(c.Call.Args) || ro.w.AP(c.Call.Args[i]) != "recv.jobsByPipeline[arg0]" {
+				return g, ""
+			}
+			if g.Signature.Recv() != nil {
+				if i == 0 {
+					return g, "recv"
+				}
+				return g, fmt.Sprintf("arg%d", i-1)
+			}
+			return g, fmt.Sprintf("arg%d", i)
+		}
+	}
+	return g, ""
 }
